@@ -68,7 +68,8 @@ def main():
         detected = {}
         if confirmed:
             for p in [prop] + [a for a in also if a != prop]:
-                env = dict(ENV, VERIF_REPO=scratch, VERIF_BUDGET_S=str(budget), VERIF_SEED=os.environ.get("VERIF_SEED", "1"))
+                env = dict(ENV, VERIF_REPO=scratch, VERIF_BUDGET_S=str(budget), VERIF_SEED=os.environ.get("VERIF_SEED", "1"),
+                           VERIF_EVIDENCE_DIR="/tmp/seedeval_evidence", VERIF_REPLAY_DIR="/tmp/seedeval_replays")
                 t0 = time.time()
                 rc, out = sh("./check %s --tier quick" % p, cwd=VERIF, env=env, timeout=3600)
                 lines = [l for l in out.splitlines() if l.startswith("violation:") or l.startswith("VIOLATION") or l.startswith("OK ") or l.startswith("INFRA")]
@@ -79,8 +80,6 @@ def main():
                 if m and os.path.exists(m.group(1)):
                     detected[p]["replay_saved"] = "replay-%s.json" % p
                     detected[p]["_replay_src"] = m.group(1)
-            # restore the evidence files the runs against the changed tree have overwritten
-            sh("git checkout -- evidence", cwd=VERIF)
         meta["checks"] = detected
         meta["detected_by"] = sorted(p for p, d in detected.items() if d["exit"] == 1)
         dst = os.path.join(VERIF, "seeded", "%s-%s" % (prop, label))
